@@ -308,7 +308,7 @@ func corpus(r *core.Run) {
 
 func genCases(r *core.Run) {
 	rd := r.Rand
-	for i := 0; i < r.N(400, 20000); i++ {
+	for i := 0; i < r.N(400, 8000); i++ {
 		ty := core.Pick(rd, tyNames)
 		n := rd.Intn(14)
 		if rd.Chance(20) {
@@ -336,7 +336,7 @@ func genCases(r *core.Run) {
 
 func seqCases(r *core.Run) {
 	rd := r.Rand
-	for n := 0; n < r.N(160, 6000); n++ {
+	for n := 0; n < r.N(160, 2000); n++ {
 		kind := core.Pick(rd, StoreKinds)
 		seed := strconv.Itoa(rd.Intn(1 << 30))
 		if rd.Chance(6) {
@@ -400,7 +400,7 @@ func seqCases(r *core.Run) {
 		judge(r, items, out)
 	}
 	// targeted: a token of one context looked up under every other context, and never-issued tokens
-	for n := 0; n < r.N(40, 1500); n++ {
+	for n := 0; n < r.N(40, 400); n++ {
 		kind := core.Pick(rd, StoreKinds)
 		seed := strconv.Itoa(rd.Intn(1 << 30))
 		ty := core.Pick(rd, tyNames)
@@ -484,7 +484,7 @@ func judgeDataTok(r *core.Run, items []item, res []string) {
 
 func dataTokCases(r *core.Run) {
 	rd := r.Rand
-	for n := 0; n < r.N(120, 4000); n++ {
+	for n := 0; n < r.N(120, 1200); n++ {
 		kind := core.Pick(rd, StoreKinds)
 		seed := strconv.Itoa(rd.Intn(1 << 30))
 		ty := core.Pick(rd, tyNames)
@@ -541,7 +541,7 @@ func dataTokCases(r *core.Run) {
 
 func concCases(r *core.Run) {
 	rd := r.Rand
-	for n := 0; n < r.N(150, 8000); n++ {
+	for n := 0; n < r.N(150, 2500); n++ {
 		kind := core.Pick(rd, StoreKinds)
 		seed := strconv.Itoa(rd.Intn(1 << 30))
 		if rd.Chance(5) {
